@@ -100,6 +100,13 @@ impl Command for ResCmd {
             }
             r
         });
+        match &r {
+            Res::Cont(v) | Res::GotoLabel(_, v) | Res::GotoLine(_, v) => with_hz(|h| {
+                let n = h.invocations;
+                h.res_out.insert(n, v.clone());
+            }),
+            _ => {}
+        }
         match r {
             Res::Cont(v) => CommandResult::Continue(v),
             Res::GotoLabel(l, v) => CommandResult::GoTo(v, GoToValue::Label(l)),
